@@ -7,3 +7,7 @@ Local Open Scope Z_scope.
 Definition uwrap (w z : Z) : Z := z mod 2 ^ w.
 Definition swrap (w z : Z) : Z := (z + 2 ^ (w - 1)) mod 2 ^ w - 2 ^ (w - 1).
 Definition b2z (b : bool) : Z := if b then 1 else 0.
+
+(** width skeleton of a floating-point expression over the two elements being compared: which subtraction is
+    carried out at which width (32 / 64 bits) and where a value is narrowed to a smaller format *)
+Inductive fexpr := FA | FB | FSub (w : Z) (x y : fexpr) | FAbs (x : fexpr) | FNarrow (w : Z) (x : fexpr).
